@@ -104,7 +104,11 @@ def check(ctx: Ctx) -> None:
             continue
         for d in fi.decorators:
             if d.split(".")[-1] in ("lru_cache", "cache", "cached_property"):
-                ctx.instance("R15.2", fi.where(), f"{fi.short} is memoised with {d}")
+                from ..effects import memo_is_pure
+                pure, why_pure = memo_is_pure(pm, fi)
+                ctx.instance("R15.2", fi.where(), f"{fi.short} is memoised with {d}; pure in its arguments: {pure} ({why_pure})")
+                if pure:
+                    continue        # functools caches are thread-safe; a pure function's cached value is what any thread would compute
                 ctx.violation("R15.2", fi.short, f"decorator {d}", fi.where(),
                               f"{fi.short} on the encode path is memoised ({d}): results computed for one call are served to others")
     ctx.instance("R15.2", "src/rtflite", f"{len(reach)} reachable functions scanned for memoisation decorators")
